@@ -154,14 +154,18 @@ def convOutLen (x k s d pb pe : Nat) : Nat :=
   if x + pb + pe < eff then 0 else (x + pb + pe - eff) / s + 1
 
 /-- `NormalizePadFormatConv.compute_pads` for `SAME_UPPER` / `SAME_LOWER` (one list entry per spatial axis):
-returns `begins ++ ends`.  **Uses `k`, not the dilated kernel extent.** -/
+returns `begins ++ ends`.  `ks` = the kernel extents the caller passes: since commit 6841282 the dilated extents
+`(k-1)*d+1` (`dilatedExtents`); before it the raw kernel sizes (finding D16c1, fixed). -/
 def computeSamePads (upper : Bool) (xs ys ks ss : List Nat) : List Nat :=
   let per := (List.zip (List.zip xs ys) (List.zip ks ss)).map (fun ((x, y), (k, s)) =>
-    let total : Nat := ((y - 1) * s + k) - x   -- `max(0, (y-1)*s + k - x)` (y ≥ 1 in every valid model)
+    let total : Nat := ((y - 1) * s + k) - x   -- `max(0, (y-1)*s + extent - x)` (y ≥ 1 in every valid model)
     let p1 := total / 2
     let p2 := total - p1
     if upper then (p1, p2) else (p2, p1))
   per.map Prod.fst ++ per.map Prod.snd
+
+/-- `(k - 1) * d + 1` per axis (`zip` truncates like Python's). -/
+def dilatedExtents (ks ds : List Nat) : List Nat := List.zipWith (fun k d => (k - 1) * d + 1) ks ds
 
 structure NormPad where
   autoPad : Option String
@@ -169,6 +173,7 @@ structure NormPad where
   outShape : Option Shape
   kernel : List Nat          -- attribute or weight.shape[2:]
   strides : List Nat         -- attribute or [1]*n
+  dilations : List Nat       -- attribute or [1]*n
   padsAttr : Option (List Int)
 
 structure NormPadRepl where
@@ -188,7 +193,7 @@ def normPadRun (p : NormPad) : Outcome NormPadRepl :=
         | some xs, some ys =>
           if p.kernel.length != p.strides.length then .nofire else
           if !(p.kernel.length == xs.length && xs.length == ys.length) then .raises else
-          let pads := (computeSamePads (ap == "SAME_UPPER") xs ys p.kernel p.strides).map Int.ofNat
+          let pads := (computeSamePads (ap == "SAME_UPPER") xs ys (dilatedExtents p.kernel p.dilations) p.strides).map Int.ofNat
           .fire { pads := if pads.any (· != 0) then some pads else p.padsAttr }
         | _, _ => .nofire
       else
@@ -215,11 +220,15 @@ structure BatchNorm where
   gemmBetaIsOne : Bool := true
   trainingMode : Bool := false
 
-def batchNormCheck (p : BatchNorm) : Bool :=
+/-- `_FuseBatchNormBase.check` before commit 621808b (finding C05-N6, fixed). -/
+def batchNormCheckPrefix (p : BatchNorm) : Bool :=
   p.inits.all (fun f => f.isInitializer && f.hasConst && !f.isGraphInput) &&
   !p.sharedOutside && p.inChannelsModGroup == 0
 
 def batchNormHyp (p : BatchNorm) : Bool := p.gemmBetaIsOne && !p.trainingMode
+
+/-- `check` as it is now: not in training mode, Gemm's `beta == 1`, then the initializer / sharing guards. -/
+def batchNormCheck (p : BatchNorm) : Bool := batchNormHyp p && batchNormCheckPrefix p
 
 /-! ## Expand before a broadcasting binary op — strategy 1 (constant target shape) -/
 
